@@ -47,8 +47,10 @@ def st_newargs(draw, node, args, cfg):
         elif kind == "i":
             nb = len(node["bs"])
             out.append(draw(st.integers(0, nb - 1)) if cfg.get("change_idx", False) and draw(st.booleans()) else a)
-        elif kind == "b":
+        elif kind in ("b", "bi"):
             out.append((not a) if cfg.get("change_flag", False) and draw(st.booleans()) else a)
+        elif kind == "vb":
+            out.append([(not x) if cfg.get("change_flag", False) and draw(st.booleans()) else x for x in a])
         elif kind[0] == "args":
             sub = node["bs"][pos - 1] if k in ("switch", "mix") else (node["a"] if pos == 1 else node["b"])
             out.append(draw(st_newargs(sub, a, cfg)))
@@ -74,6 +76,42 @@ def st_selterm(letters=None):
     return st.recursive(base, ext, max_leaves=3)
 
 
+def st_selspec():
+    """selection described relative to the program's address schema (resolved by resolve_sel)"""
+    return st.fixed_dictionaries({
+        "picks": st.lists(st.integers(0, 60), min_size=0, max_size=3),
+        "mode": st.sampled_from(["full", "full", "prefix", "wild", "full-not", "prefix-not", "random"]),
+        "term": st_selterm(),
+    })
+
+
+def resolve_sel(node, spec):
+    """selection term (vpbt/selmodel grammar) for a spec drawn by st_selspec"""
+    if isinstance(spec, list):
+        return spec  # an explicit term
+    if spec["mode"] == "random":
+        return spec["term"]
+    addrs = sorted({gfi.static_part(p) for p, _ in gfi.all_paths(node)})
+    addrs = [a for a in addrs if len(a) > 0]
+    atoms = []
+    for i in spec["picks"]:
+        if not addrs:
+            break
+        a = list(addrs[i % len(addrs)])
+        mode = spec["mode"].split("-")[0]
+        if mode == "prefix":
+            a = a[:1]
+        elif mode == "wild":
+            a = ["..."] + a[1:]
+        atoms.append(["at", a])
+    term = ["none"]
+    for at in atoms:
+        term = at if term == ["none"] else ["or", term, at]
+    if spec["mode"].endswith("-not"):
+        term = ["not", term]
+    return term
+
+
 @st.composite
 def st_op(draw, node, args, cfg):
     kinds = cfg.get("ops", ["update"])
@@ -82,6 +120,7 @@ def st_op(draw, node, args, cfg):
         op = {
             "op": "update",
             "picks": draw(st_picks(cfg.get("maxpicks", 3))),
+            "xpicks": draw(st_picks(2)) if cfg.get("change_idx", False) or cfg.get("change_flag", False) else [],
             "newargs": draw(st_newargs(node, args, cfg)) if draw(st.integers(0, 2)) > 0 and cfg.get("argchange", True) else None,
             "tag": draw(st.sampled_from(["min", "all_unknown"])),
             "via": draw(st.sampled_from(["request", "gf.update", "trace.update"])),
@@ -89,17 +128,17 @@ def st_op(draw, node, args, cfg):
         }
         return op
     if kind == "regen":
-        return {"op": "regen", "sel": draw(st_selterm()), "newargs": None}
+        return {"op": "regen", "sel": draw(st_selspec()), "newargs": None}
     if kind == "index":
         sub = draw(st.sampled_from(cfg.get("index_subs", ["update"])))
         op = {"op": "index", "idx": draw(st.integers(0, 3)), "sub": sub, "picks": draw(st_picks(2)), "style": "or"}
         if sub == "regen":
-            op["sel"] = draw(st_selterm())
+            op["sel"] = draw(st_selspec())
         return op
     if kind == "bwd":
         return {"op": "bwd"}
     if kind == "project":
-        return {"op": "project", "sel": draw(st_selterm())}
+        return {"op": "project", "sel": draw(st_selspec())}
     raise ValueError(kind)
 
 
@@ -138,14 +177,15 @@ class State:
 
 def _diff_args(sg, new_json, old_json, jnew, tag):
     """argdiffs for the new argument values: an argument whose value did not change is tagged NoChange
-    (tag == 'min') or UnknownChange (tag == 'all_unknown'); the switch index is tagged NoChange iff
-    unchanged (UnknownChange is a documented resampling trigger)."""
+    (tag == 'min') or UnknownChange (tag == 'all_unknown'); the switch index (and the or_else flag, which
+    is mapped to a switch index) is tagged NoChange iff unchanged (UnknownChange is a documented
+    resampling trigger)."""
     from genjax import Diff
 
     out = []
     for kind, a_new, a_old, j in zip(sg, new_json, old_json, jnew):
         changed = a_new != a_old
-        if kind == "i":
+        if kind in ("i", "bi"):
             out.append(Diff.unknown_change(j) if changed else Diff.no_change(j))
         elif isinstance(kind, list) and kind[0] == "args":
             out.append(_diff_args(kind[1], a_new, a_old, j, tag))
@@ -155,6 +195,66 @@ def _diff_args(sg, new_json, old_json, jnew, tag):
             else:
                 out.append(Diff.no_change(j))
     return tuple(out)
+
+
+def _has_var(e):
+    if not isinstance(e, list):
+        return False
+    if e and e[0] == "v":
+        return True
+    return any(_has_var(x) for x in e[1:])
+
+
+def resample_prefixes(node, casg, top_changed, path=(), inside=False):
+    """Call-site path patterns ('*' = any index) under which a Switch may legitimately resample its
+    branch during an update: the documented trigger is an index tagged UnknownChange, which the static
+    language produces whenever the index expression depends on a value that is not provably unchanged.
+    Conservative: constants never trigger; a discrete choice used as index triggers iff it is constrained;
+    an expression over variables may trigger."""
+    k = node["k"]
+    out = []
+    if k == "static":
+        raw_paths = []
+        for s in node["stmts"]:
+            a = s["addr"]
+            sub = path + ((a,) if isinstance(a, str) else tuple(a))
+            raw_paths.append(sub)
+            cal = s["callee"]
+            if cal["k"] in ("switch", "or_else"):
+                ix = s["args"][0]
+                trig = False
+                if ix[0] in ("iconst", "bconst"):
+                    trig = False
+                elif ix[0] in ("iraw", "braw"):
+                    rp = raw_paths[ix[1]]
+                    trig = any(_pat_match(rp, c) for c in casg) or inside
+                else:
+                    trig = _has_var(ix[1]) or inside
+                if trig:
+                    out.append(sub)
+            out += resample_prefixes(cal, casg, top_changed, sub, inside)
+    elif k in ("vmap", "repeat", "scan", "accumulate", "reduce", "iterate", "iterate_final", "masked_iterate", "masked_iterate_final"):
+        out += resample_prefixes(node["g"], casg, top_changed, path + ("*",), True if k != "vmap" and k != "repeat" else inside)
+    elif k in ("switch", "or_else"):
+        if top_changed and len(path) == 0:
+            out.append(path)
+        for b in (node["bs"] if k == "switch" else [node["a"], node["b"]]):
+            out += resample_prefixes(b, casg, top_changed, path, inside)
+    elif k == "mix":
+        mc = path + ("mixture_component",)
+        if any(_pat_match(mc, c) for c in casg):
+            out.append(path + ("component_sample",))
+        for b in node["bs"]:
+            out += resample_prefixes(b, casg, top_changed, path + ("component_sample",), inside)
+    elif k in ("mask", "dimap", "map", "contramap"):
+        out += resample_prefixes(node["g"], casg, top_changed, path, inside or k in ("dimap", "contramap"))
+    return out
+
+
+def _pat_match(pattern, p):
+    if len(p) < len(pattern):
+        return False
+    return all(c == "*" and isinstance(q, int) or c == q for c, q in zip(pattern, p))
 
 
 def constraint_from_picks(run, picks, extra_paths=()):
@@ -227,6 +327,12 @@ def step_update(s, op, checks, case):
     nnew = gfi.to_np_args(s.sg, new_json)
     argdiffs = _diff_args(s.sg, new_json, s.args_json, jnew, op.get("tag", "min"))
     casg = constraint_from_picks(s.run, op.get("picks", []))
+    # constraints on addresses the current execution does not visit (e.g. the branch a changed index selects)
+    unvisited = [(p, n) for p, n in gfi.all_paths(node) if p not in s.run.dist_info and n not in ("uniform", "categorical")]
+    for i, u in op.get("xpicks", []):
+        if unvisited:
+            p, n = unvisited[i % len(unvisited)]
+            casg[p] = gfi.value_for(n, None, u)
     chm = gfi.build_chm(casg, style=op.get("style", "or"))
     k, s.key = jax.random.split(s.key)
     via = op.get("via", "request")
@@ -239,8 +345,11 @@ def step_update(s, op, checks, case):
     else:
         new_tr, w, retdiff, bwd_req = Update(chm).edit(k, s.tr, argdiffs)
         bwd_chm = bwd_req.constraint if isinstance(bwd_req, Update) else None
-    # model
-    masg = dict(s.asg)
+    # model: old values, overridden by the constraint; choices under a switch whose index may be tagged
+    # UnknownChange may be resampled (documented trigger) and are read from the new trace
+    top_changed = s.node["k"] in ("switch", "or_else") and new_json[0] != s.args_json[0]
+    rs = resample_prefixes(node, casg, top_changed)
+    masg = {p: v for p, v in s.asg.items() if not any(_pat_match(pre, p) for pre in rs)}
     masg.update(casg)
     run2, fresh = gfi.check_trace_against_model(new_tr, node, nnew, masg, "update:", case, Violation, allow_fresh=True)
     old_run = s.run
@@ -349,7 +458,7 @@ def step_bwd(s, op, checks, case):
     import jax
 
     info = s.prev
-    if info is None:
+    if info is None or info.get("kind") == "index-rejected":
         return None
     k, s.key = jax.random.split(s.key)
     argdiffs = _diff_args(s.sg, info["old_args_json"], s.args_json, info["old_jargs"], "all_unknown" if op.get("tag") == "all_unknown" else "min")
@@ -380,7 +489,7 @@ def step_bwd(s, op, checks, case):
     s.tr, s.run, s.asg = tr2, run_back, run_back.assignment()
     s.args_json, s.jargs, s.nargs = info["old_args_json"], info["old_jargs"], info["old_nargs"]
     s.prev = None
-    return run_back
+    return {"kind": "bwd", "restored_terms": len(run_back.terms)}
 
 
 def selected(term, path):
@@ -391,7 +500,7 @@ def step_regen(s, op, checks, case):
     import jax
     from genjax import Diff, Regenerate
 
-    term = op["sel"]
+    term = resolve_sel(s.node, op["sel"])
     sel = selmodel.build(term)
     k, s.key = jax.random.split(s.key)
     argdiffs = _diff_args(s.sg, s.args_json, s.args_json, s.jargs, "min")
@@ -455,7 +564,7 @@ def step_index(s, op, checks, case):
         masg.update(casg)
         term = None
     else:
-        term = op["sel"]
+        term = resolve_sel(s.node, op["sel"])
         req = IndexRequest(jnp.array(idx), Regenerate(selmodel.build(term)))
         casg = {}
         masg = {p: v for p, v in s.asg.items() if not (len(p) > 0 and p[0] == idx and selected(term, p))}
@@ -466,6 +575,7 @@ def step_index(s, op, checks, case):
 
         fr = [f.name for f in _tb.extract_tb(e.__traceback__)]
         if "edit_index" in fr and s.node["k"] == "scan":
+            s.prev = None
             return {"kind": "index-rejected"}  # documented precondition of Scan.edit_index (carry must not change)
         raise
     run2, fresh = gfi.check_trace_against_model(new_tr, s.node, s.nargs, masg, "index:", case, Violation, allow_fresh=True)
@@ -492,7 +602,7 @@ def step_index(s, op, checks, case):
 def step_project(s, op, checks, case):
     import jax
 
-    term = op["sel"]
+    term = resolve_sel(s.node, op["sel"])
     sel = selmodel.build(term)
     k, s.key = jax.random.split(s.key)
     got = gfi.fval(s.tr.project(k, sel))
@@ -631,3 +741,33 @@ def check_tagged(case, ctx, table):
     if ctx is not None:
         ctx.count("family:" + fam)
     return table[fam](case, ctx)
+
+
+def arr_equal(a, b, tol=1e-6):
+    x, y = np.asarray(a), np.asarray(b)
+    if x.shape != y.shape:
+        return False
+    if x.dtype.kind == "f" or y.dtype.kind == "f":
+        return bool(np.allclose(x.astype(np.float64), y.astype(np.float64), rtol=tol, atol=tol, equal_nan=True))
+    return bool(np.array_equal(x, y))
+
+
+def trees_equal(a, b, tol=0.0):
+    """leafwise comparison of two pytrees (bit-equal when tol == 0)"""
+    import jax
+
+    la, ta = jax.tree_util.tree_flatten(a)
+    lb, tb = jax.tree_util.tree_flatten(b)
+    if ta != tb:
+        return f"pytree structures differ: {ta} vs {tb}"
+    for i, (x, y) in enumerate(zip(la, lb)):
+        x, y = np.asarray(x), np.asarray(y)
+        if x.shape != y.shape or x.dtype != y.dtype:
+            return f"leaf {i}: {x.dtype}{x.shape} vs {y.dtype}{y.shape}"
+        if tol == 0.0:
+            ok = np.array_equal(x, y, equal_nan=True) if x.dtype.kind == "f" else np.array_equal(x, y)
+        else:
+            ok = arr_equal(x, y, tol)
+        if not ok:
+            return f"leaf {i}: {x!r} vs {y!r}"
+    return None
